@@ -184,6 +184,26 @@ def hand_range_step(x: fp.Real, y: fp.Real):
         for j in range(1, 8, 3):
             acc = acc + j * y
         return acc''',
+    'hand_range_down': '''@fp.fpy
+def hand_range_down(x: fp.Real, y: fp.Real):
+    with fp.IEEEContext(4, 11):
+        acc = fp.round(0)
+        for m in range(5, 0, -2):
+            acc = acc * fp.round(2) + m + x
+        for n in range(2, -3, -1):
+            acc = acc + n * y
+        return acc + y''',
+    'hand_range_empty': '''@fp.fpy
+def hand_range_empty(x: fp.Real, y: fp.Real):
+    with fp.IEEEContext(4, 11):
+        acc = fp.round(0)
+        for q in range(0, 3, -1):
+            acc = acc + fp.round(100)
+        for r in range(3, 3, 1):
+            acc = acc + fp.round(50)
+        for s in range(4, 1):
+            acc = acc + fp.round(25)
+        return acc + y + x''',
     'hand_nested_tuple': '''@fp.fpy
 def hand_nested_tuple(x: fp.Real, y: fp.Real):
     with fp.IEEEContext(4, 11):
@@ -348,7 +368,12 @@ def record(job):
                 except (OutOfDomain, Unsupported):
                     to = None
                 except Exception as e:      # noqa: BLE001
-                    to = {'err': type(e).__name__}
+                    if type(e).__name__ == 'ShapeError' and 'shape [0' in str(e):
+                        # the reference evaluator cannot build a tensor with no elements: `(tensor ([i 0]) i)` alone raises this
+                        stats['titanfp-cannot-build-an-empty-tensor'] += 1
+                        to = None
+                    else:
+                        to = {'err': type(e).__name__}
                 if to is not None:
                     ins['titanfp'].append({'args': aj, 'ctx': [], 'out': to})
                 if g is not None:
